@@ -1463,6 +1463,9 @@ INFO = {
             'still ahead; distinct = distinct trace digests',
             'components': _COMPONENTS, 'assumptions': _ASSUME},
 }
+for _v in INFO.values():
+    _v['rule'] += (
+        '; swarm dimensions (see probes): handler hierarchies with overrides, mixins, two handler bases (while K5 is not listed), classes decorated again / callbacks rebound after use, partialmethod callbacks, handlers with value equality or no hash, callback return values, keyword arguments with internal-looking names, guarded nested releases, backlogs > 4096 and > 65536, program finalizers that dispatch at the death of a listener, address reuse after death')
 PROBES = {
     'C03': ['double_registration', 'remove_unregistered',
             'reentrant_dispatch', 'remove_mid_dispatch',
